@@ -96,6 +96,8 @@ def _dispatch_post(c, r):
     # the class actually constructed on this path must be the one the table demands,
     # and the instance must share the manager's epistemic state
     same_state = c._st.obj(r.ref)["fields"]["epistemic_state"] is c.epistemic_state
+    if cls not in want:
+        return [z3.BoolVal(same_state)]  # at call sites the instance is of the abstract class
     return [want[cls], z3.BoolVal(same_state)]
 
 
